@@ -84,9 +84,17 @@ def call_method(h, name, args):
         elif name == '__delitem__':
             del h[args[0]]
             v = None
-        elif name == '__iadd__':
-            h += args[0]
-            v = None
+        elif name in ('__iadd__', '__imul__'):
+            # in-place operators: `h op= x` must leave the name bound to the same object (the proxy), as it does for
+            # the object itself
+            h0 = h
+            if name == '__iadd__':
+                h += args[0]
+            else:
+                h *= args[0]
+            v = None if h is h0 else ('REBOUND-TO', type(h).__name__)
+        elif name == '__iter__':
+            v = list(iter(h))
         elif name == '__getattr__':
             v = getattr(h, args[0])
         elif name == '__setattr__':
@@ -111,7 +119,9 @@ def call_method(h, name, args):
         from mpservice.multiprocessing.remote_exception import get_remote_traceback, is_remote_exception
         remote = is_remote_exception(e)
         tb = get_remote_traceback(e) if remote else ''
-        return ('raised', type(e).__name__, _argrepr(e), remote, tb[-400:])
+        # (the tail of the server-side traceback, and its header if there is one further up)
+        short = tb if len(tb) <= 400 else ('Traceback ... ' if 'Traceback (most recent call last)' in tb[:-400] else '') + tb[-400:]
+        return ('raised', type(e).__name__, _argrepr(e), remote, short)
 
 
 def _argrepr(e):
